@@ -181,7 +181,7 @@ def split_runs(trace):
     return [(s, (starts[j + 1] if j + 1 < len(starts) else n)) for j, s in enumerate(starts)]
 
 
-def validate_batch(module, cfg, trace, label, max_violations=6, strict_budget=6, timeout=3600, lenient=True, max_divergences=None):
+def validate_batch(module, cfg, trace, label, max_violations=6, strict_budget=6, timeout=3600, lenient=True, max_divergences=None, start_lenient=False, lenient_chunk=250):
     """Strict validation of a whole batch in one JVM. Every rejected run is cut out and validated
     leniently on its own (violation if lenient rejects too, divergence otherwise) and the remainder
     is validated again. After `strict_budget` strict rejections the remainder is validated in
@@ -203,9 +203,16 @@ def validate_batch(module, cfg, trace, label, max_violations=6, strict_budget=6,
     work = os.path.join(WORK, "vb_" + label)
     os.makedirs(work, exist_ok=True)
     remaining = runs
-    strict_mode = True
+    strict_mode = not start_lenient
     strict_rejections = 0
-    while remaining:
+    later = []
+    while remaining or later:
+        if not remaining:
+            remaining, later = later, []
+        if not strict_mode and len(remaining) > lenient_chunk:
+            # lenient search takes silent steps: keep behaviours well below TLC's 65535-state limit
+            later = remaining[lenient_chunk:] + later
+            remaining = remaining[:lenient_chunk]
         f = os.path.join(work, "rem.ndjson")
         with open(f, "w") as o:
             for r in remaining:
@@ -220,7 +227,8 @@ def validate_batch(module, cfg, trace, label, max_violations=6, strict_budget=6,
             for k, n in tv["deviations"].items():
                 res["deviations"][k] = res["deviations"].get(k, 0) + n
             res["strict_accepted" if strict_mode else "lenient_accepted"] += len(remaining)
-            break
+            remaining = []
+            continue
         at = tv["rejected_at"]
         if at is None:
             raise ToolError("invariant %s violated during trace validation of %s (spec bug?)\n%s" % (tv["invariant"], label, tv["tail"]))
@@ -273,7 +281,7 @@ def validate_batch(module, cfg, trace, label, max_violations=6, strict_budget=6,
             log("[V] REJECTED (%s): %s" % (label, entry.get("lenient_event") or entry["strict_event"]))
         remaining = remaining[bad_i + 1:]
         if len(res["violations"]) >= max_violations:
-            res["unvalidated"] = len(remaining)
+            res["unvalidated"] = len(remaining) + len(later)
             log("[V] %d violations found; %d runs of %s left unvalidated" % (len(res["violations"]), len(remaining), label))
             break
         if strict_mode and strict_rejections >= strict_budget and lenient:
